@@ -11,6 +11,7 @@ import (
 	"errors"
 	"fmt"
 	"iter"
+	"net/http"
 	"time"
 
 	"ebuverif/internal/h"
@@ -194,6 +195,20 @@ func runCase(t tcase) (result, []string) {
 	if t.Fault == "row-fail" {
 		stores.ResetSQLFaults(t.At)
 	}
+	gets, cutHit := 0, false
+	if t.Fault == "body-cut" {
+		med.CutBody = func(r *http.Request) bool {
+			if r.Method != http.MethodGet {
+				return false
+			}
+			gets++
+			if gets == t.At {
+				cutHit = true
+				return true
+			}
+			return false
+		}
+	}
 	n := 0
 	rerr := bus.Replay(ctx, from, func(se *eventbus.StoredEvent) error {
 		n++
@@ -218,6 +233,8 @@ func runCase(t tcase) (result, []string) {
 	if isSQLite {
 		stores.ResetSQLFaults(0)
 	}
+	med.CutBody = nil
+	_ = cutHit
 	res.IsNil = rerr == nil
 	if rerr != nil {
 		res.Err = rerr.Error()
@@ -276,10 +293,11 @@ func runCase(t tcase) (result, []string) {
 	}
 	// A second, fault-free replay on the same bus and store, after the log grew by one
 	// event: whatever the first one went through (a fault, a cancellation, an early exit),
-	// the next one delivers everything after the offset and returns nil. (Not on the
-	// durable-streams configurations, whose paging defects are recorded findings that a
-	// second replay would only show once more.)
-	if len(out) == 0 && cfg.Kind != "durable" && cfg.Kind != "durable-chunk1" {
+	// the next one delivers everything after the offset and returns nil. (On the
+	// durable-streams store with default chunks only without a bus batch size and from the
+	// oldest offset: its batch truncation and its non-resumable per-event offsets are
+	// recorded findings that a second replay would only show once more.)
+	if len(out) == 0 && (cfg.Kind != "durable" || (t.Batch == 0 && t.Start == 0)) {
 		fs.failAt = 0
 		if _, err := hd.Store.Append(bg, &eventbus.Event{Type: "t", Data: json.RawMessage(fmt.Sprintf(`{"i":%d}`, t.L+1)), Timestamp: time.Unix(int64(2000+t.L), 0).UTC()}); err != nil {
 			vrt.MachineryFault("append: %v", err)
@@ -342,6 +360,12 @@ func cases(thorough bool) []tcase {
 					}
 					for k := 1; k <= want; k++ {
 						l = append(l, tcase{Cfg: ci, Batch: b, L: L, Start: s, Fault: "cb-error", At: k}, tcase{Cfg: ci, Batch: b, L: L, Start: s, Fault: "cb-cancel", At: k})
+					}
+					if cfg.Kind == "durable-chunk1" || (cfg.Kind == "durable" && b == 0 && s == 0) {
+						// the p-th download of the replay ends early (status and headers fine)
+						for p := 1; p <= want+1 && p <= 4; p++ {
+							l = append(l, tcase{Cfg: ci, Batch: b, L: L, Start: s, Fault: "body-cut", At: p})
+						}
 					}
 					for p := 1; p <= want+1; p++ {
 						l = append(l, tcase{Cfg: ci, Batch: b, L: L, Start: s, Fault: "store-fail", At: p})
